@@ -124,6 +124,9 @@ class Net:
         self.sent = self.delivered = self.dropped = self.duplicated = 0
         self.in_flight = 0
         self.responses_from = {}       # receiver addr -> set of sender addrs that delivered a response datagram
+        self.ports_tried = {}          # (sender addr, destination ip) -> udp ports the sender sent datagrams to
+        self.max_datagram = 0
+        self.blocked = set()           # (sender addr, receiver addr) pairs whose datagrams are all lost
         loop.create_datagram_endpoint = self._create_datagram_endpoint
 
     async def _create_datagram_endpoint(self, proto_lam, from_addr):
@@ -142,8 +145,11 @@ class Net:
 
     def send(self, frm, to, data):
         self.sent += 1
+        self.ports_tried.setdefault((frm, to[0]), set()).add(to[1])
+        if len(data) > self.max_datagram:
+            self.max_datagram = len(data)
         p = self.profile
-        if frm in self.dead:
+        if frm in self.dead or (frm, to) in self.blocked:
             return
         if p.loss and self.rng.random() < p.loss:
             self.dropped += 1
@@ -203,7 +209,7 @@ def ip_of(i):
 
 HOSTILE_KINDS = ['silent', 'garbage', 'truncated', 'wrong_type', 'bad_contacts', 'self_contact', 'fake_contacts',
                  'bad_compact', 'dup_pages', 'huge_pages', 'error_reply', 'claims_key', 'alias_contacts',
-                 'short_compact', 'no_token']
+                 'short_compact', 'no_token', 'int_reply']
 
 
 class Hostile:
@@ -273,6 +279,8 @@ class Hostile:
             choice = rng.randrange(5)
             res = [7, [1, 2, 3], [[b'x']], b'notalist', {b'token': 5, key: 9, b'p': b'zz'}][choice]
             return self._respond(frm, rid, res)
+        if kind == 'int_reply':       # decodable, wrong shape: raises TypeError in the caller (not one of the handled errors)
+            return self._respond(frm, rid, 7)
         if kind == 'no_token':
             return self._respond(frm, rid, wrap([], [self._compact(rng)], 1, with_token=False))
         if kind == 'bad_contacts':
@@ -537,7 +545,12 @@ _node_mod.IterativeValueFinder = TracedValueFinder
 class Sim:
     """n real Nodes (index 0 = bootstrap) + optional hostile endpoints on one VirtualLoop."""
 
-    def __init__(self, seed, n, profile=None, hostile=(), ids=None, split_index=1):
+    def __init__(self, seed, n, profile=None, hostile=(), ids=None, split_index=1, rpc_timeout=None, addr='short',
+                 ports=None):
+        """rpc_timeout: the CONFIGURED timeout handed to Node(rpc_timeout=...) (None = the constructor default);
+        addr: 'short' = 1.2.3.N udp 4444 / tcp 3333, 'long' = 203.104.1xx.1yy udp = tcp = 44444 (15-character
+        dotted quads, 5-digit ports: the largest contact triples a reply can carry);
+        ports: optional {node index: (udp, tcp)} overriding the scheme for single nodes"""
         self.seed, self.n = seed, n
         self.rng = random.Random(seed)
         self.loop = VirtualLoop()
@@ -545,15 +558,28 @@ class Sim:
         self.net = Net(self.loop, random.Random(seed ^ 0x5eed), self.profile)
         self.traces = []
         self.nodes = []
+        self.rpc_timeout = RPC_TIMEOUT if rpc_timeout is None else float(rpc_timeout)
+        self.addr_scheme = addr
+        ports = {int(k): tuple(v) for k, v in (ports or {}).items()}
+        self.endpoints = []
         for i in range(n):
             nid = ids[i] if ids else bytes(self.rng.randrange(256) for _ in range(48))
-            self.nodes.append(Node(self.loop, PeerManager(self.loop), nid, 4444, 4444, 3333, ip_of(i),
-                                   split_buckets_under_index=split_index))
+            udp, tcp = ports.get(i, (44444, 44444) if addr == 'long' else (4444, 3333))
+            ip = self.ip(i)
+            self.endpoints.append((ip, udp, tcp))
+            kwargs = {} if rpc_timeout is None else {'rpc_timeout': float(rpc_timeout)}
+            self.nodes.append(Node(self.loop, PeerManager(self.loop), nid, udp, udp, tcp, ip,
+                                   split_buckets_under_index=split_index, **kwargs))
         self.hostiles = []
         for j, kind in enumerate(hostile):
             hid = bytes(self.rng.randrange(256) for _ in range(48))
-            self.hostiles.append(Hostile(self.net, random.Random(seed * 77 + j), kind, hid, ip_of(100 + j)))
-        self.boot_addr = (ip_of(0), 4444)
+            self.hostiles.append(Hostile(self.net, random.Random(seed * 77 + j), kind, hid, self.ip(100 + j)))
+        self.boot_addr = (self.endpoints[0][0], self.endpoints[0][1]) if n else None
+
+    def ip(self, i):
+        if self.addr_scheme == 'long':
+            return '203.104.%d.%d' % (100 + i // 100, 100 + i % 100)
+        return ip_of(i)
 
     def run(self, coro):
         asyncio.set_event_loop(self.loop)
@@ -600,14 +626,36 @@ class Sim:
             await asyncio.wait_for(asyncio.gather(*[self.nodes[i].joined.wait() for i in order]), 900)
 
     def addr(self, i):
-        return (ip_of(i), 4444)
+        return (self.endpoints[i][0], self.endpoints[i][1])
 
-    async def value_lookup(self, i, blob, max_probes=600):
+    async def production_lookup(self, i, blob, wait):
+        """the downloader's path: Node.accumulate_peers() fed with the blob hash; returns the peers that came out of the
+        peer queue within `wait` virtual seconds"""
+        node = self.nodes[i]
+        search_q, peer_q = asyncio.Queue(), asyncio.Queue()
+        search_q.put_nowait(blob.hex())
+        _, task = node.accumulate_peers(search_q, peer_q)
+        out = []
+        end = self.loop.time() + wait
+        try:
+            while True:
+                left = end - self.loop.time()
+                if left <= 0:
+                    break
+                try:
+                    out.extend(await asyncio.wait_for(peer_q.get(), left))
+                except asyncio.TimeoutError:
+                    break
+        finally:
+            task.cancel()
+        return out
+
+    async def value_lookup(self, i, blob, max_probes=600, shortlist=None):
         """returns (list of yielded peers, finder, finished?); the lookup is abandoned (finished = False) once it has
         scheduled more probes than the proved bound allows, or max_probes"""
         node = self.nodes[i]
         found = []
-        finder = node.get_iterative_value_finder(blob)
+        finder = node.get_iterative_value_finder(blob, shortlist=shortlist)
         finder._t0 = self.loop.time()
         finished = True
         async with contextlib.aclosing(finder):
@@ -910,14 +958,33 @@ def run_pages_case(run, model, case):
     loop = VirtualLoop()
     try:
         node_id = constants.digest(b'storing-%d' % seed)
-        proto = KademliaProtocol(loop, PeerManager(loop), node_id, '1.2.3.4', 4444, 3333)
+        long = variant == 'long_contacts'     # 15-character dotted quads, 5-digit ports, >= K contacts known
+
+        def lip(i):
+            return '203.104.%d.%d' % (100 + i // 100, 100 + i % 100) if long else ip_of(20 + i)
+        uport = 44444 if long else 4444
+        proto = KademliaProtocol(loop, PeerManager(loop), node_id, lip(900) if long else '1.2.3.4', uport, 3333)
+        sent = []
+
+        class _Cap:
+            def sendto(self, data, to):
+                sent.append(bytes(data))
+
+            def is_closing(self):
+                return False
+        proto.connection_made(_Cap())
         key = constants.digest(b'pages-key-%d' % seed)
         stored = []
         for i in range(n):
-            p = make_kademlia_peer(constants.digest(b'pg-%d-%d' % (seed, i)), ip_of(20 + i), 4444, 3333 + i % 50)
+            p = make_kademlia_peer(constants.digest(b'pg-%d-%d' % (seed, i)), lip(i), uport, 3333 + i % 50)
             proto.data_store.add_peer_to_blob(p, key)
             stored.append(p)
-        requester = make_kademlia_peer(constants.digest(b'requester-%d' % seed), '1.2.9.9', 4444, None)
+        requester = make_kademlia_peer(constants.digest(b'requester-%d' % seed), lip(901) if long else '1.2.9.9', uport, None)
+        if long:
+            async def fill():
+                for i in range(12):
+                    await proto._add_peer(make_kademlia_peer(constants.digest(b'contact-%d-%d' % (seed, i)), lip(700 + i), uport))
+            loop.run_until_complete(fill())
         if variant == 'requester_is_stored' and stored:
             requester = stored[len(stored) // 2]
         if variant == 'has_blob':
@@ -937,11 +1004,26 @@ def run_pages_case(run, model, case):
         for page in list(range(0, last + 1)) + [-1]:
             resp = proto.node_rpc.find_value(requester, key, page)
             items = [number.get(bytes(c), 0) for c in resp.get(key, [])]
+            # the reply as a datagram, through the real _send (which refuses anything above MSG_SIZE_LIMIT)
+            del sent[:]
+            refused = None
+            try:
+                proto.send_response(requester, ResponseDatagram(1, b'r' * 20, node_id, resp))
+            except ValueError as e:
+                refused = str(e)
+            size = len(sent[0]) if sent else None
             impl.append({'page': page, 'items': items, 'pages': resp[b'p'], 'contacts': b'contacts' in resp,
-                         'token': len(resp[b'token'])})
+                         'token': len(resp[b'token']), 'size': size, 'limit': constants.MSG_SIZE_LIMIT})
             eff = max(page, 0)
             r = model.call('serve_page', l=[number[c] for c in shuffled], page=eff)
-            mod.append({'page': page, 'items': r['items'], 'pages': r['pages'], 'contacts': eff == 0, 'token': 48})
+            sz = model.call('reply_size',
+                            contacts=[[len(c[1]), c[2]] for c in resp[b'contacts']] if b'contacts' in resp else None,
+                            compacts=len(resp[key]) if key in resp else None, pages=resp[b'p'])
+            mod.append({'page': page, 'items': r['items'], 'pages': r['pages'], 'contacts': eff == 0, 'token': 48,
+                        'size': sz['size'], 'limit': sz['limit']})
+            if refused:
+                problems.append(f'the findValue reply for page {page} ({len(resp.get(key, []))} peers, '
+                                f'{len(resp.get(b"contacts", []))} contacts) cannot be sent: {refused}')
             if page >= 0:
                 seen.extend(items)
         if sorted(seen) != list(range(1, m + 1)):
@@ -1145,10 +1227,10 @@ def check_lookup(sim, i, finder, found, finished, t0, t1):
         problems.append(f'{finder.KIND} lookup scheduled {finder._n_sched} probes for {learned} peers learned')
     if finder.KIND == 'node' and finder._n_sched > seeds + learned:
         problems.append(f'node lookup scheduled {finder._n_sched} probes for {learned} peers learned')
-    # a bounded number of RPC timeouts: at every moment until it ends a lookup has a probe running, and a probe ends
+    # a bounded number of RPC timeouts, measured in the timeout the node was CONFIGURED with: at every moment until it ends a lookup has a probe running, and a probe ends
     # within one rpc_timeout, so it lasts at most rpc_timeout x (probes scheduled + 1) plus one round trip of slack.
     # Virtual clock only; lookups whose socket the scenario closed are exempt (they must still finish).
-    bound = RPC_TIMEOUT * (finder._n_sched + 1) + 2 * sim.profile.delay[1]
+    bound = sim.rpc_timeout * (finder._n_sched + 1) + 2 * sim.profile.delay[1]
     if not getattr(finder, '_ext_closed', False) and t1 - t0 > bound:
         problems.append(f'{finder.KIND} lookup took {t1 - t0:.1f}s of virtual time for {finder._n_sched} probes '
                         f'(bound {bound:.1f}s)')
@@ -1170,16 +1252,56 @@ def check_lookup(sim, i, finder, found, finished, t0, t1):
 
 def gen_hit_case(rng, n, idx):
     delay_hi = rng.choice([0.05, 0.3, 1.0, 2.0])
-    return {'part': 'hit', 'n': n, 'seed': rng.randrange(1 << 30), 'delay': [0.001, delay_hi],
+    case = {'part': 'hit', 'n': n, 'seed': rng.randrange(1 << 30), 'delay': [0.001, delay_hi],
             'dup': rng.choice([0.0, 0.1, 0.4]), 'announcers': rng.choice([1, 1, 2, 3]),
-            'settle': rng.choice([0, 0, 30, 600, 2000]), 'passage': 'jump'}
+            'settle': rng.choice([0, 0, 30, 600, 2000]), 'passage': 'jump', 'production': True,
+            'addr': 'long' if idx % 3 == 2 else 'short'}
+    # configured RPC timeout: default, much smaller, or larger with replies that take longer than the default 5 s
+    if idx % 4 == 1:
+        case['rpc_timeout'] = 12.0
+        case['delay'] = [2.6, 5.5]
+    elif idx % 4 == 3:
+        case['rpc_timeout'] = 0.5
+        case['delay'] = [0.001, rng.choice([0.02, 0.1])]
+    # second / n-th instance on a host (tcp 3333+i, udp 4444+i) and one port for both protocols
+    if case['addr'] == 'short' and n >= 4:
+        layouts = [(4445, 3334), (4510, 3399), (5000, 5000)]
+        picks = rng.sample(range(n), 3)
+        case['ports'] = {str(i): list(l) for i, l in zip(picks, layouts)}
+    return case
 
 
 def run_hit_case(run, model, case):
     n, seed = case['n'], case['seed']
-    sim = Sim(seed, n, Profile(delay=tuple(case['delay']), dup=case['dup']))
+    sim = Sim(seed, n, Profile(delay=tuple(case['delay']), dup=case['dup']), rpc_timeout=case.get('rpc_timeout'),
+              addr=case.get('addr', 'short'), ports=case.get('ports'))
     rng = random.Random(seed * 7 + 1)
-    info = {'checkpoints': {}, 'stored': [], 'closest_overlap': [], 'tries': []}
+    info = {'checkpoints': {}, 'stored': [], 'closest_overlap': [], 'tries': [], 'production': None}
+
+    async def production(blob, announcers):
+        """the downloader's path (Node.accumulate_peers) from every node: every other announcer must come out"""
+        wait = 40 + 6 * sim.rpc_timeout + 12 * sim.profile.delay[1]
+        results = await asyncio.gather(*[sim.production_lookup(i, blob, wait) for i in range(n)])
+        problems, missing, guesses = [], [], {}
+        for i, peers in enumerate(results):
+            got = {(p.address, p.tcp_port) for p in peers}
+            storing = sim.nodes[i].protocol.data_store.has_peers_for_blob(blob)
+            for a in announcers:
+                if a == i:
+                    continue
+                ip, udp, tcp = sim.endpoints[a]
+                if (ip, tcp) not in got:
+                    missing.append((i, a, udp, tcp))
+                if not storing:
+                    r = model.call('producer', is_self=False, good=None, udp=None, tcp=tcp)
+                    tried = sim.net.ports_tried.get((sim.addr(i), ip), set())
+                    guesses['%d>%d' % (i, a)] = (r[0] == 'ping' and r[1] in tried, True)
+        info['production'] = {'lookups': len(results), 'missing': len(missing)}
+        if missing:
+            i, a, udp, tcp = missing[0]
+            problems.append(f'loss-free honest network of {n}: Node.accumulate_peers of node {i} does not return live '
+                            f'announcer {a} (udp {udp} / tcp {tcp}); {len(missing)} (searcher, announcer) pairs missing')
+        return problems, guesses
 
     async def lookups(label, blob, announcers, must, windows):
         async def one(i):
@@ -1216,11 +1338,18 @@ def run_hit_case(run, model, case):
         order = list(range(1, n))
         rng.shuffle(order)
         gaps = [rng.choice([0.0, 0.1, 1.0, 3.0, 20.0]) for _ in order]
-        await sim.start(order, gaps)
-        await asyncio.wait_for(sim.nodes[0].joined.wait(), 3000)
+        try:
+            await sim.start(order, gaps)
+            await asyncio.wait_for(sim.nodes[0].joined.wait(), 3000)
+        except asyncio.TimeoutError:
+            return [f'loss-free honest network of {n} (configured rpc_timeout {sim.rpc_timeout}s, one-way delay <= '
+                    f'{sim.profile.delay[1]}s): the nodes do not manage to join']
         await asyncio.sleep(case['settle'])
         blob = bytes(rng.randrange(256) for _ in range(48))
         announcers = rng.sample(range(n), min(case['announcers'], n))
+        if case.get('ports'):            # nodes on non-default port layouts announce
+            special = [int(k) for k in case['ports']]
+            announcers = sorted(set(special[:3]) | set(announcers[:1]))
         need = min(5, n - 1)
         windows = {}
         for a in announcers:
@@ -1252,6 +1381,10 @@ def run_hit_case(run, model, case):
         first_lo = min(w[0] for w in windows.values())
         last_hi = max(w[1] for w in windows.values())
         problems += await lookups('fresh', blob, announcers, 'hit', windows)
+        if case.get('production'):
+            pp, guesses = await production(blob, announcers)
+            problems += pp
+            info['guesses'] = guesses
         if case['passage'] == 'real':
             await asyncio.sleep(max(0.0, first_lo + EXPIRY / 2 - sim.loop.time()))
         else:
@@ -1279,7 +1412,8 @@ def run_many_case(run, model, case):
     """honest loss-free network of n real Nodes in which `ann` of them announce the same blob; every node's value
     lookup must return every announcer (paging across the storing nodes, merged by the finder)"""
     n, seed, n_ann = case['n'], case['seed'], case['ann']
-    sim = Sim(seed, n, Profile(delay=tuple(case['delay']), dup=case['dup']))
+    sim = Sim(seed, n, Profile(delay=tuple(case['delay']), dup=case['dup']), rpc_timeout=case.get('rpc_timeout'),
+              addr=case.get('addr', 'short'))
     rng = random.Random(seed * 13 + 5)
 
     async def go():
@@ -1322,9 +1456,114 @@ def run_many_case(run, model, case):
             problems.append(f'loss-free honest network of {n}, {n_ann} live announcers stored on {len(targets)} nodes: '
                             f'the value lookup of node {worst[0]} misses announcers {worst[1][:10]} '
                             f'({len(worst[1])} missing; {bad} of {n} lookups incomplete)')
-        return {'targets': len(targets), 'lookups': len(results)}, problems
+        return {'targets': len(targets), 'lookups': len(results), 'max_datagram': sim.net.max_datagram}, problems
     try:
         info, problems = sim.run(go())
+        return info, problems, sim.traces
+    finally:
+        sim.close()
+
+
+def run_hearsay_case(run, model, case):
+    """node lookups for the EXACT id of a node the searcher has never heard from: a node that died before the searcher
+    joined, a node that is silent to findNode/findValue, and a live node all of whose datagrams to the searcher are
+    lost.  The other nodes still list all three in their routing tables, so the lookup 'finds' the key at once; the
+    clause checked is: every returned contact replied to the searcher (and never the searcher itself)."""
+    n, seed = case['n'], case['seed']
+    sim = Sim(seed, n, Profile(delay=tuple(case['delay']), dup=case.get('dup', 0.0)), ['silent'],
+              rpc_timeout=case.get('rpc_timeout'), addr=case.get('addr', 'short'))
+    rng = random.Random(seed * 17 + 9)
+    info = {'lookups': 0, 'found_key_events': 0}
+
+    async def go():
+        problems = []
+        late = n - 1
+        order = list(range(1, n - 1))
+        rng.shuffle(order)
+        await sim.start(order, [rng.choice([0.0, 0.5, 2.0]) for _ in order])
+        await asyncio.wait_for(sim.nodes[0].joined.wait(), 3000)
+        await asyncio.sleep(case.get('settle', 700))          # the bootstrap has pinged everybody by now
+        dead, mute = rng.sample(range(1, n - 1), 2)
+        sim.net.kill(sim.addr(dead))
+        sim.net.blocked.add((sim.addr(mute), sim.addr(late)))
+        await asyncio.sleep(rng.choice([0.5, 5.0, 40.0]))
+        sim.nodes[late].start('0.0.0.0', [sim.boot_addr])
+        await asyncio.wait_for(sim.nodes[late].joined.wait(), 900)
+        await asyncio.sleep(rng.choice([0.0, 1.0, 3.0]))
+        targets = [('dead', sim.nodes[dead].protocol.node_id), ('silent', sim.hostiles[0].node_id),
+                   ('mute', sim.nodes[mute].protocol.node_id)]
+        for label, key in targets:
+            for how in ('finder', 'peer_search'):
+                t0 = sim.loop.time()
+                n_before = len(sim.traces)
+                if how == 'finder':
+                    found, finder = await sim.node_lookup(late, key)
+                else:
+                    found = await sim.nodes[late].peer_search(key)
+                    finder = [f for f in sim.traces[n_before:] if f.protocol is sim.nodes[late].protocol][-1]
+                    finder._t0, finder._t1 = t0, sim.loop.time()
+                info['lookups'] += 1
+                info['found_key_events'] += sum(1 for r in finder._events if r.get('found_key'))
+                for pr in check_lookup(sim, late, finder, found, True, t0, sim.loop.time()):
+                    problems.append(f'[lookup of the id of a {label} node, via {how}] ' + pr)
+        return problems
+    try:
+        problems = sim.run(go())
+        return info, problems, sim.traces
+    finally:
+        sim.close()
+
+
+def run_lastcrash_case(run, model, case):
+    """the probe whose reply makes the finder's task die (decodable bencode of the wrong shape) is the LAST one of the
+    lookup to complete: the node is the only entry of the shortlist, or its answers are slower than everybody else's.
+    The lookup must still finish."""
+    n, seed, kind = case['n'], case['seed'], case['kind']
+    sim = Sim(seed, n, Profile(delay=tuple(case['delay'])), [kind], rpc_timeout=case.get('rpc_timeout'))
+    rng = random.Random(seed * 19 + 1)
+    info = {'lookups': 0}
+
+    async def go():
+        problems = []
+        await sim.start()
+        await asyncio.sleep(case.get('settle', 700))
+        h = sim.hostiles[0]
+        hpeer = make_kademlia_peer(h.node_id, h.addr[0], h.addr[1])
+        # the hostile node answers slowly (but well within the timeout) from now on
+        slow = sim.rpc_timeout * 0.5
+        orig_send = sim.net.send
+
+        def send(frm, to, data):
+            if frm == h.addr:
+                sim.net.sent += 1
+                sim.net.in_flight += 1
+                sim.loop.call_later(slow, sim.net._deliver, frm, to, data)
+            else:
+                orig_send(frm, to, data)
+        sim.net.send = send
+        for i in rng.sample(range(n), min(n, 2)):
+            for key in (bytes(rng.randrange(256) for _ in range(48)), h.node_id):
+                for shortlist in ([hpeer], None):
+                    for what in ('node', 'value'):
+                        t0 = sim.loop.time()
+                        n_before = len(sim.traces)
+                        try:
+                            if what == 'node':
+                                found, finder = await asyncio.wait_for(sim.node_lookup(i, key, shortlist=shortlist), 900)
+                                fin = True
+                            else:
+                                found, finder, fin = await asyncio.wait_for(
+                                    sim.value_lookup(i, key, shortlist=shortlist), 900)
+                        except asyncio.TimeoutError:
+                            mine = [f for f in sim.traces[n_before:] if f.protocol is sim.nodes[i].protocol and f.key == key]
+                            found, finder, fin = [], (mine[0] if mine else sim.traces[-1]), False
+                            finder._t0, finder._t1 = t0, t0
+                        info['lookups'] += 1
+                        for pr in check_lookup(sim, i, finder, found, fin, t0, sim.loop.time()):
+                            problems.append(f'[{what} lookup, shortlist {"= the malformed-reply node only" if shortlist else "from the routing table"}] ' + pr)
+        return problems
+    try:
+        problems = sim.run(go())
         return info, problems, sim.traces
     finally:
         sim.close()
@@ -1336,14 +1575,26 @@ FAULT_KINDS = list(HOSTILE_KINDS) + ['endless_pager']
 def gen_fault_case(rng, idx):
     n = rng.choice([4, 6, 9, 12, 16, 24])
     kinds = [FAULT_KINDS[(idx + j * 5) % len(FAULT_KINDS)] for j in range(rng.choice([1, 2, 3]))]
-    return {'part': 'fault', 'n': n, 'seed': rng.randrange(1 << 30), 'delay': [0.001, rng.choice([0.2, 1.0, 3.0, 7.0])],
+    case = {'part': 'fault', 'n': n, 'seed': rng.randrange(1 << 30), 'delay': [0.001, rng.choice([0.2, 1.0, 3.0, 7.0])],
             'dup': rng.choice([0.0, 0.3]), 'loss': rng.choice([0.0, 0.0, 0.05, 0.2, 0.5]),
             'dead': rng.choice([0, 1, 2, n // 2]), 'hostile': kinds, 'disconnect': idx % 3 == 0}
+    # the bound is in units of the CONFIGURED rpc timeout: nodes built with a smaller / larger one, silent nodes present
+    if idx % 4 == 1:
+        case['rpc_timeout'] = [0.25, 1.0, 20.0][(idx // 4) % 3]
+        case['delay'] = [0.001, 7.0 if case['rpc_timeout'] > 5 else case['rpc_timeout'] * 0.1]
+        case['dead'] = max(1, case['dead'])
+        case['loss'] = 0.0
+        if 'silent' not in case['hostile']:
+            case['hostile'] = case['hostile'][:2] + ['silent']
+    if idx % 5 == 4:
+        case['addr'] = 'long'
+    return case
 
 
 def run_fault_case(run, model, case):
     n, seed = case['n'], case['seed']
-    sim = Sim(seed, n, Profile(delay=tuple(case['delay']), dup=case['dup'], loss=case['loss']), case['hostile'])
+    sim = Sim(seed, n, Profile(delay=tuple(case['delay']), dup=case['dup'], loss=case['loss']), case['hostile'],
+              rpc_timeout=case.get('rpc_timeout'), addr=case.get('addr', 'short'))
     rng = random.Random(seed * 11 + 3)
     info = {'lookups': 0, 'alias_yields': 0, 'hostile_answered': 0}
 
@@ -1506,12 +1757,33 @@ def do_case(run, model, case, rng=None):
             run.violation(case, p, signature={'part': 'many', 'n': case['n'], 'ann': case['ann'], 'seed': case['seed']})
         compare_traces(run, model, [t for t in traces if t.KIND == 'value'], 'many ann=%d seed=%d' % (case['ann'], case['seed']),
                        rng, case.get('trace_cap', 12))
+    elif part == 'lastcrash':
+        info, problems, traces = run_lastcrash_case(run, model, case)
+        run.case(case, nontrivial=True)
+        run.count('lastcrash:' + case['kind'])
+        for p in problems[:3]:
+            run.violation(case, p, signature={'part': 'lastcrash', 'kind': case['kind'], 'seed': case['seed']})
+        compare_traces(run, model, [t for t in traces if any(r.get('escaped') for r in t._events)],
+                       'lastcrash %s seed=%d' % (case['kind'], case['seed']), rng, 10)
+    elif part == 'hearsay':
+        info, problems, traces = run_hearsay_case(run, model, case)
+        run.case(case, nontrivial=True)
+        run.count('hearsay:n=%d' % case['n'])
+        run.count('hearsay:found-key-events', info['found_key_events'])
+        for p in problems[:3]:
+            run.violation(case, p, signature={'part': 'hearsay', 'n': case['n'], 'seed': case['seed']})
+        late = [t for t in traces if t.KIND == 'node' and t._meta['searcher'] == traces[-1]._meta['searcher']]
+        compare_traces(run, model, late[-12:], 'hearsay n=%d seed=%d' % (case['n'], case['seed']), rng, 12)
     elif part == 'hit':
         info, problems, traces = run_hit_case(run, model, case)
         run.case(case, nontrivial=True)
         run.count('hit:n=%d' % case['n'])
         for p in problems[:3]:
             run.violation(case, p, signature={'part': 'hit', 'n': case['n'], 'seed': case['seed']})
+        if info.get('guesses'):
+            run.compare('C12.producer', {'part': 'hit', 'n': case['n'], 'seed': case['seed'], 'what': 'udp port pinged'},
+                        {k: v[0] for k, v in info['guesses'].items()}, {k: v[1] for k, v in info['guesses'].items()})
+            info.pop('guesses')
         compare_traces(run, model, traces, 'hit n=%d seed=%d' % (case['n'], case['seed']), rng, case.get('trace_cap', 60))
         return info
     elif part == 'fault':
@@ -1556,7 +1828,15 @@ def main(run):
         'and every node must find every announcer; E2 networks with datagram loss 0-50%%, delay up to 7 s, dead nodes and a fixed catalogue of %d hostile '
         'reply kinds; D every finder that ran in B2/E1/E2 (incl. join/refresh/announce lookups) is replayed event by event '
         'through the extracted model. distinct = distinct case dict (seeded scenarios / op lists / byte strings / finder '
-        'traces by searcher+key+length); non-trivial = contains at least one query (ds), n>0 (pages), >2 events (traces).'
+        'traces by searcher+key+length). Round 5: nodes are built with a CONFIGURED rpc_timeout (0.25 / 0.5 / 1 s with small delays and silent '
+        'nodes; 12 / 20 s with one-way delays of 2.6-7 s so that replies slower than the default 5 s must still count) and every duration '
+        'bound is in units of that timeout; a third of the networks use 15-character dotted quads with 5-digit ports '
+        '(203.104.1xx.1yy:44444), B1 sends every findValue page through the real _send with >= K such contacts and compares the '
+        'datagram size with the model; announcers on shifted port layouts (tcp 3334/udp 4445, tcp 3399/udp 4510, 5000/5000) are looked '
+        'up through Node.accumulate_peers from every node; E2a a fixed family: a late joiner looks up the exact id of a node that '
+        'died before it joined, of a silent node and of a live node whose datagrams to it are all lost; E2b a fixed family: the node whose reply is decodable but of '
+        'the wrong shape (int result, findValue dict without token, 2-byte compact address) is the only shortlist entry or the '
+        'slowest to answer, so its probe is the last to complete; non-trivial = contains at least one query (ds), n>0 (pages), >2 events (traces).'
         % len(FAULT_KINDS))
     supporting = {'hit_runs': 0, 'hit_lookups': 0, 'hit_misses': 0, 'stale_hits': 0, 'late_lookups': 0,
                   'stored_to': {}, 'closest_overlap': {}, 'announce_tries': {}, 'by_size': {},
@@ -1608,9 +1888,12 @@ def main(run):
     if tier == 'thorough':
         ns = list(range(0, K * 35 + 1))
     for n in ns:
-        for variant in ('plain', 'requester_is_stored', 'has_blob'):
+        for variant in ('plain', 'requester_is_stored', 'has_blob', 'long_contacts'):
             do_case(run, model, {'part': 'pages', 'n': n, 'variant': variant, 'seed': rng.randrange(1000)})
     # ---- C
+    for ip in boundary_ips():          # every edge of every reserved network, deterministically
+        for port in (1023, 1024, 3333, 65535):
+            do_case(run, model, {'part': 'compact', 'bs': (ip.to_bytes(4, 'big') + port.to_bytes(2, 'big') + b'\x07' * 48).hex()})
     for b in gen_compacts(rng, vlib.scaled(tier, 3000, 60000)):
         do_case(run, model, {'part': 'compact', 'bs': b.hex()})
     # ---- B2
@@ -1632,12 +1915,22 @@ def main(run):
             case['passage'] = 'real'
         add_hit(do_case(run, model, case, rng), n)
     # ---- E1b: many announcers on the K storing nodes of an honest network
-    many = [(24, 20), (40, 30)] if tier != 'thorough' else \
-        [(10, 9), (12, 11), (20, 19), (30, 24), (40, 17), (40, 30), (40, 39), (70, 60), (70, 60), (110, 100), (110, 100)]
-    for n, a in many:
-        do_case(run, model, {'part': 'many', 'n': n, 'ann': a, 'seed': rng.randrange(1 << 30),
+    many = [(24, 20, 'short'), (12, 11, 'long'), (40, 30, 'long')] if tier != 'thorough' else \
+        [(10, 9, 'long'), (12, 11, 'short'), (20, 19, 'long'), (30, 24, 'short'), (40, 17, 'long'), (40, 30, 'short'),
+         (40, 39, 'long'), (70, 60, 'short'), (70, 60, 'long'), (110, 100, 'short'), (110, 100, 'long')]
+    for n, a, addr in many:
+        do_case(run, model, {'part': 'many', 'n': n, 'ann': a, 'addr': addr, 'seed': rng.randrange(1 << 30),
                              'delay': [0.001, rng.choice([0.05, 0.5, 1.5])], 'dup': rng.choice([0.0, 0.2]),
                              'settle': rng.choice([0, 300, 1300])}, rng)
+    # ---- E2a: lookups for the exact id of a dead / silent / never-heard node by a late joiner (fixed family)
+    for idx in range(vlib.scaled(tier, 4, 40)):
+        do_case(run, model, {'part': 'hearsay', 'n': [6, 9, 12, 16][idx % 4], 'seed': rng.randrange(1 << 30),
+                             'delay': [0.001, [0.05, 0.3, 1.0][idx % 3]], 'dup': [0.0, 0.2][idx % 2],
+                             'settle': [700, 1500][idx % 2], 'addr': 'long' if idx % 4 == 3 else 'short'}, rng)
+    # ---- E2b: the malformed reply that kills the probe task is the last probe of the lookup to complete (fixed family)
+    for idx in range(vlib.scaled(tier, 3, 24)):
+        do_case(run, model, {'part': 'lastcrash', 'n': [4, 7, 10][idx % 3], 'kind': ['int_reply', 'no_token', 'short_compact'][idx % 3],
+                             'seed': rng.randrange(1 << 30), 'delay': [0.001, [0.05, 0.2][idx % 2]]}, rng)
     # ---- E2
     for idx in range(vlib.scaled(tier, 16, 240)):
         add_fault(do_case(run, model, gen_fault_case(rng, idx), rng))
